@@ -765,6 +765,14 @@ class Engine:
             self.emit("lemma_call.%s.%s" % (lm.name, hname), "lemma-pre", st, to_bool(self.evc(src, lst, guard)),
                       guard=guard, note=src)
         self.lemmas_used.add(lm.name)
+        if getattr(lm, "intro", None):
+            ivars, irng = [], []
+            for iv, (lo, hi) in lm.intro.items():
+                x = z3.Int("lc!%s!%d" % (iv, next(_fresh)))
+                ivars.append(x)
+                irng.append(z3.And(to_z3(self.evc(lo, lst, guard)) <= x, x < to_z3(self.evc(hi, lst, guard))))
+                lst.env[iv] = x
+            return z3.ForAll(ivars, z3.Implies(z3.And(*irng), to_bool(self.evc(lm.statement, lst, guard))))
         return to_bool(self.evc(lm.statement, lst, guard))
 
     # ---- calls to functions under contract (modular) ----------------------------------------------------------------
@@ -822,8 +830,19 @@ class Engine:
                 cur = st.env.get(gv)
                 if isinstance(cur, Ref) and isinstance(val, Ref):
                     st.heap[cur.base] = st.heap[cur.base].replace(arr=gst.heap[val.base].arr)
+                elif isinstance(val, Ref):
+                    # a new ghost array: a snapshot (copy) of the value, not an alias
+                    ho = gst.heap[val.base]
+                    st.env[gv] = self.new_array(st, "ghost_" + gv, ho.elem, ho.ndim - len(val.prefix),
+                                                shape=ho.shape[len(val.prefix):], arr=self.sel(gst, val), kind=ho.kind)
                 else:
                     st.env[gv] = val
+        for hsrc in (getattr(self.contract, "call_hints", None) or {}).get(callee.name, []):
+            hst = st.fork()
+            hst.heap, hst.pc = st.heap, st.pc
+            if res is not None:
+                hst.env["call_result"] = res
+            st.pc.append(to_bool(self.evc(hsrc, hst, guard)))
         return res if res is not None else PyObj("none")
 
     # ---- statements -------------------------------------------------------------------------------------------------
